@@ -372,6 +372,23 @@ class Interp:
                 return self.models[name](self, e, env)
             if k == 'call' and (SX.callee(e) or '').startswith(('std::move', 'std::forward')) and len(SX.real_args(e)) == 1:
                 return self.expr(SX.real_args(e)[0], env)
+            if k == 'call' and (SX.callee(e) or '').split('<')[0] in ('std::copy', 'std::fill') and len(SX.real_args(e)) == 3:
+                a = [self.expr(x, env) for x in SX.real_args(e)]
+                if all(isinstance(x, tuple) and x[0] == 'iter' and len(x) == 3 and isinstance(x[2], list) for x in a[:2]) and a[0][2] is a[1][2]:
+                    src = a[0][2]
+                    if (SX.callee(e) or '').startswith('std::copy'):
+                        d = a[2]
+                        if not (isinstance(d, tuple) and d[0] == 'iter' and len(d) == 3 and isinstance(d[2], list)):
+                            raise Unsupported('std::copy destination')
+                        seg = src[a[0][1]:a[1][1]]
+                        if d[1] + len(seg) > len(d[2]):
+                            raise OutOfRange('std::copy writes past the end of the destination (%d + %d > %d)' % (d[1], len(seg), len(d[2])))
+                        d[2][d[1]:d[1] + len(seg)] = seg
+                        return ('iter', d[1] + len(seg), d[2])
+                    for i_ in range(a[0][1], a[1][1]):
+                        src[i_] = a[2]
+                    return None
+                raise Unsupported('call ' + SX.callee(e))
             if k == 'call' and SX.callee(e) in ('std::isdigit', 'isdigit') and len(SX.real_args(e)) == 1:
                 c = self.expr(SX.real_args(e)[0], env)
                 return isinstance(c, str) and len(c) == 1 and c.isdigit() and c.isascii()
@@ -535,7 +552,7 @@ class Interp:
                 self.store(e['obj'], o + a[0], env)
                 return None
             if name in ('begin', 'end', 'cbegin', 'cend') and isinstance(o, (str, list)):
-                return ('iter', 0 if 'begin' in name else len(o))
+                return ('iter', 0 if 'begin' in name else len(o), o)
             if name == 'insert' and isinstance(o, str) and len(a) == 2 and isinstance(a[0], tuple) and a[0][0] == 'iter':
                 self.store(e['obj'], o[:a[0][1]] + a[1] + o[a[0][1]:], env)
                 return None
